@@ -7,6 +7,7 @@ import Y0.Model.Canon
 import Y0.Model.Mutate
 import Y0.Spec.Sem
 import Y0.Lemmas.SemScope
+import Y0.Lemmas.SemScopeW
 import Y0.Driver.Graph
 
 namespace Y0.Driver
@@ -157,6 +158,7 @@ def handleExpr (op : String) (args : List Sexp) : Option Sexp :=
   | "recursive_contract", [e] => do pure (replyE (recursiveContract (← wfExpr? e)))
   | "markov", [e] => do pure (replyB (hasMarkovPostcondition (← wfExpr? e)))
   | "well_scoped", [e] => do pure (replyB (.ok (WellScoped (← exprOf? e))))
+  | "well_scoped_mw", [e] => do pure (replyB (.ok (WellScopedW (← exprOf? e))))
   | "den", [e, env, s, s'] => do
       let e ← exprOf? e
       let env ← envOf? env
